@@ -514,10 +514,10 @@ def cast(kind, fty, tty, a):
         fb, fs = ity_parse(fty)
         tb, ts = ity_parse(tty)
         ba = bits_of(a, fb) if a.op in ('bits', 'b2i') else None
-        if ba is not None and not fs:
+        if ba is not None:
             if tb <= fb:
                 return mk_bits(ba[:tb])
-            return mk_bits(ba + [FALSE] * (tb - fb))
+            return mk_bits(ba + [ba[-1] if fs else FALSE] * (tb - fb))
     if kind == 'IntToFloat' and is_const(a):
         fb, fs = ity_parse(fty)
         v = _val(a, fb, fs)
@@ -580,6 +580,17 @@ def lane_bitop(op, a, b, size):
     andnot(a,b) = (~a) & b"""
     sign = 1 << (size * 8 - 1)
     allones = (1 << (size * 8)) - 1
+    if _bitsy(a) or _bitsy(b):
+        xa, xb = as_bits(a, size * 8), as_bits(b, size * 8)
+        if xa is not None and xb is not None:
+            if op == 'and':
+                return mk_bits([b_and(x, y) for x, y in zip(xa, xb)])
+            if op == 'or':
+                return mk_bits([b_or(x, y) for x, y in zip(xa, xb)])
+            if op == 'xor':
+                return mk_bits([b_xor(x, y) for x, y in zip(xa, xb)])
+            if op == 'andnot':
+                return mk_bits([b_and(b_not(x), y) for x, y in zip(xa, xb)])
     ma, mb = mask_bool(a), mask_bool(b)
     if op == 'and':
         if ma is not None and mb is not None:
@@ -643,6 +654,27 @@ def lane_bitop(op, a, b, size):
     if op in ('and', 'or', 'xor') and b < a:
         a, b = b, a
     return mk('b' + op, a, b)
+
+
+def _bitsy(t):
+    if t.op == 'bits':
+        return True
+    if t.op == 'ite' and all(is_const(x) or _bitsy(x) for x in t.args[1:]):
+        return True
+    return False
+
+
+def as_bits(t, n):
+    if t.op == 'bits' or is_const(t):
+        return bits_of(t, n)
+    m = mask_bool(t)
+    if m is not None:
+        return [m] * n
+    if t.op == 'ite':
+        a, b = as_bits(t.args[1], n), as_bits(t.args[2], n)
+        if a is not None and b is not None:
+            return [ite(t.args[0], x, y) for x, y in zip(a, b)]
+    return None
 
 
 def signbit(t):
